@@ -53,6 +53,15 @@ fn enumerate_valid_ecubes_multi(functions: &[Lut]) -> Vec<Ecube> {
     cubes
 }
 
+/// Verification hook: candidate cubes and exclusive cubes considered for these functions
+#[cfg(volute_verif)]
+pub fn verif_candidates(functions: &[Lut]) -> (Vec<Cube>, Vec<Ecube>) {
+    (
+        enumerate_valid_cubes_multi(functions),
+        enumerate_valid_ecubes_multi(functions),
+    )
+}
+
 #[cfg(feature = "optim-mip")]
 #[cfg_attr(docsrs, doc(cfg(feature = "optim-mip")))]
 pub use mip::*;
